@@ -12,18 +12,16 @@ theorem readAt_sub (file : Bytes) (pos len : Nat) (bs : Bytes) (h : readAt file 
     (off len' : Nat) (hsub : off + len' ≤ len) (hpos : pos + off < two63) :
     readAt file (pos + off) len' = some ((bs.drop off).take len') := by
   unfold readAt at h ⊢
-  rw [if_neg (by omega)]
-  split at h
-  · contradiction
-  · split at h
-    · injection h with h; subst h
-      have : len' = 0 := by omega
-      subst this; simp
+  by_cases h0 : len' = 0
+  · subst h0; simp
+  · rw [if_neg h0, if_neg (by omega)]
+    split at h
+    · omega
     · split at h
-      · injection h with h; subst h
-        by_cases h0 : len' = 0
-        · subst h0; simp
-        · rw [if_neg h0, if_pos (by omega)]
+      · contradiction
+      · split at h
+        · injection h with h; subst h
+          rw [if_pos (by omega)]
           congr 1
           apply List.ext_getElem?
           intro i
@@ -31,7 +29,7 @@ theorem readAt_sub (file : Bytes) (pos len : Nat) (bs : Bytes) (h : readAt file 
           by_cases hi : i < len'
           · rw [if_pos hi, if_pos hi, if_pos (by omega)]; congr 1; omega
           · rw [if_neg hi, if_neg hi]
-      · contradiction
+        · contradiction
 
 theorem splitEvery_getElem? (sz c : Nat) (l : Bytes) (i : Nat) :
     (splitEvery sz c l)[i]? = if i < c then some ((l.drop (i * sz)).take sz) else none := by
@@ -132,16 +130,12 @@ variable {V : Type}
 theorem readAt_sub_mod (file : Bytes) (x len : Nat) (bs : Bytes) (h : readAt file (x % two64) len = some bs)
     (off len' : Nat) (hsub : off + len' ≤ len) (hfile : file.length < two63) :
     readAt file ((x + off) % two64) len' = some ((bs.drop off).take len') := by
-  by_cases h0 : len = 0
-  · subst h0
-    have ho : off = 0 := by omega
-    have hl : len' = 0 := by omega
-    subst ho hl
-    have hb := readAt_length _ _ _ _ h
-    simp only [Nat.add_zero]
-    rw [h, List.eq_nil_of_length_eq_zero hb]; rfl
-  · have hpos : x % two64 + len ≤ file.length ∧ x % two64 < two63 := by
+  by_cases h0 : len' = 0
+  · subst h0; simp [readAt]
+  · have hlen0 : len ≠ 0 := by omega
+    have hpos : x % two64 + len ≤ file.length ∧ x % two64 < two63 := by
       unfold readAt at h
+      rw [if_neg hlen0] at h
       split at h
       · contradiction
       · split at h
